@@ -165,11 +165,15 @@ theorem vec_ge_iff (s : Style) (a b : List K) (e : K) : geVec s a b e = (gtVec s
 
 end comparisons
 
-/-- the default epsilons read off float_cmp.cc are non-negative (so the laws above apply to them) -/
+/-- the default epsilons read off float_cmp.cc (for float, double, long double and the harness' 8-bit type) are
+    non-negative, so the laws above apply to calls that omit the epsilon argument -/
 theorem defaultEps_nonneg :
     (0 : Dy) ≤ Gen.defaultEps_relativeWeak_f32 ∧ (0 : Dy) ≤ Gen.defaultEps_relativeWeak_f64 ∧
     (0 : Dy) ≤ Gen.defaultEps_relativeStrong_f32 ∧ (0 : Dy) ≤ Gen.defaultEps_relativeStrong_f64 ∧
-    (0 : Dy) ≤ Gen.defaultEps_absolute_f32 ∧ (0 : Dy) ≤ Gen.defaultEps_absolute_f64 := by decide
+    (0 : Dy) ≤ Gen.defaultEps_absolute_f32 ∧ (0 : Dy) ≤ Gen.defaultEps_absolute_f64 ∧
+    (0 : Dy) ≤ Gen.defaultEps_relativeWeak_f80 ∧ (0 : Dy) ≤ Gen.defaultEps_relativeStrong_f80 ∧
+    (0 : Dy) ≤ Gen.defaultEps_absolute_f80 ∧ (0 : Dy) ≤ Gen.defaultEps_relativeWeak_mf8 ∧
+    (0 : Dy) ≤ Gen.defaultEps_relativeStrong_mf8 ∧ (0 : Dy) ≤ Gen.defaultEps_absolute_mf8 := by decide
 
 end DV.C17
 
@@ -271,16 +275,33 @@ example : round .absolute .downward trQ (5/2) (1/10) = 2 ∧ round .absolute .up
   refine ⟨?_, ?_, ?_, ?_⟩ <;>
     (rw [round_tie .absolute _ trQ_isTrunc (5/2) (1/10) 2 (by norm_num) (by norm_num) hne ht]; norm_num [tieChoice])
 
+/-- closed form of `trunc<downward>` (`l = ⌊x⌋`): an integer argument is returned unchanged; otherwise `l+1` if the
+    argument is equal to it within epsilon, else `l` -/
 theorem trunc_downward_spec (s : Style) {tr : K → Int} (htr : IsTrunc tr) (x e : K) (l : Int)
     (hl : (l : K) ≤ x) (hu : x < (l : K) + 1) :
-    trunc s false .downward tr x e = if eqS s ((l : K) + 1) x e then l + 1 else l :=
+    trunc s false .downward tr x e = if (l : K) = x then l else if eqS s ((l : K) + 1) x e then l + 1 else l :=
   truncDown_eq s htr x e l hl hu
 
-theorem trunc_upward_spec (s : Style) {tr : K → Int} (htr : IsTrunc tr) (x e : K) (l : Int)
+theorem trunc_upward_spec (s : Style) {tr : K → Int} (htr : IsTrunc tr) (x e : K) (l : Int) (h0 : 0 ≤ e)
     (hl : (l : K) ≤ x) (hu : x < (l : K) + 1) :
     trunc s false .upward tr x e =
+      if (l : K) = x then l else
       if eqS s ((l : K) + 1) x e then l + 1 else if eqS s (l : K) x e then l else l + 1 :=
-  truncUp_eq s htr x e l hl hu
+  truncUp_eq s htr x e l h0 hl hu
+
+/-- integers are fixed points of `trunc` in every comparison and rounding style, for EVERY magnitude and every
+    epsilon ≥ 0 (before fixes/C17_trunc_large.patch an integer `n` with `eq(n+1, n)`, i.e. `1 ≤ ε·|n|` resp. `1 ≤ ε`,
+    was moved to `n+1`: `trunc<int,float>(2000000.f) = 2000001` with the default epsilon) -/
+theorem trunc_int (s : Style) (rs : RStyle) {tr : K → Int} (htr : IsTrunc tr) (n : Int) (e : K) (h0 : 0 ≤ e) :
+    trunc s false rs tr (n : K) e = n := by
+  have hd := trunc_downward_spec s htr (n : K) e n (le_refl _) (by linarith)
+  have hup := trunc_upward_spec s htr (n : K) e n h0 (le_refl _) (by linarith)
+  simp only [if_true] at hd hup
+  cases rs
+  · rw [trunc_towardZero_eq]; split <;> assumption
+  · rw [trunc_towardInf_eq]; split <;> assumption
+  · exact hd
+  · exact hup
 
 theorem trunc_direction_downward (s : Style) {tr : K → Int} (htr : IsTrunc tr) (x e : K) :
     let r := trunc s false .downward tr x e
@@ -289,42 +310,50 @@ theorem trunc_direction_downward (s : Style) {tr : K → Int} (htr : IsTrunc tr)
   obtain ⟨hl, hu⟩ := floorOf_spec htr x
   have hr : r = _ := trunc_downward_spec s htr x e (floorOf tr x) hl hu
   set l := floorOf tr x
-  by_cases h1 : eqS s ((l : K) + 1) x e = true
-  · simp only [h1, if_true] at hr
-    rw [hr]; push_cast
-    exact ⟨Or.inr h1, by linarith, by linarith⟩
-  · simp only [h1, Bool.false_eq_true, if_false] at hr
-    rw [hr]
-    exact ⟨Or.inl hl, by linarith, by linarith⟩
+  by_cases hi : (l : K) = x
+  · simp only [hi, if_true] at hr
+    rw [hr]; exact ⟨Or.inl hl, by linarith, by linarith⟩
+  · simp only [hi, if_false] at hr
+    by_cases h1 : eqS s ((l : K) + 1) x e = true
+    · simp only [h1, if_true] at hr
+      rw [hr]; push_cast
+      exact ⟨Or.inr h1, by linarith, by linarith⟩
+    · simp only [h1, Bool.false_eq_true, if_false] at hr
+      rw [hr]
+      exact ⟨Or.inl hl, by linarith, by linarith⟩
 
-theorem trunc_direction_upward (s : Style) {tr : K → Int} (htr : IsTrunc tr) (x e : K) :
+theorem trunc_direction_upward (s : Style) {tr : K → Int} (htr : IsTrunc tr) (x e : K) (h0 : 0 ≤ e) :
     let r := trunc s false .upward tr x e
     (x ≤ ((r : Int) : K) ∨ eqS s ((r : Int) : K) x e = true) ∧ x - 1 < ((r : Int) : K) ∧ ((r : Int) : K) ≤ x + 1 := by
   intro r
   obtain ⟨hl, hu⟩ := floorOf_spec htr x
-  have hr : r = _ := trunc_upward_spec s htr x e (floorOf tr x) hl hu
+  have hr : r = _ := trunc_upward_spec s htr x e (floorOf tr x) h0 hl hu
   set l := floorOf tr x
-  by_cases h1 : eqS s ((l : K) + 1) x e = true
-  · simp only [h1, if_true] at hr
-    rw [hr]; push_cast
-    exact ⟨Or.inr h1, by linarith, by linarith⟩
-  · simp only [h1, Bool.false_eq_true, if_false] at hr
-    by_cases h2 : eqS s (l : K) x e = true
-    · simp only [h2, if_true] at hr
-      rw [hr]; exact ⟨Or.inr h2, by linarith, by linarith⟩
-    · simp only [h2, Bool.false_eq_true, if_false] at hr
+  by_cases hi : (l : K) = x
+  · simp only [hi, if_true] at hr
+    rw [hr]; exact ⟨Or.inl (le_of_eq hi.symm), by linarith, by linarith⟩
+  · simp only [hi, if_false] at hr
+    by_cases h1 : eqS s ((l : K) + 1) x e = true
+    · simp only [h1, if_true] at hr
       rw [hr]; push_cast
-      exact ⟨Or.inl (le_of_lt hu), by linarith, by linarith⟩
+      exact ⟨Or.inr h1, by linarith, by linarith⟩
+    · simp only [h1, Bool.false_eq_true, if_false] at hr
+      by_cases h2 : eqS s (l : K) x e = true
+      · simp only [h2, if_true] at hr
+        rw [hr]; exact ⟨Or.inr h2, by linarith, by linarith⟩
+      · simp only [h2, Bool.false_eq_true, if_false] at hr
+        rw [hr]; push_cast
+        exact ⟨Or.inl (le_of_lt hu), by linarith, by linarith⟩
 
 
-theorem trunc_direction_towardInf (s : Style) {tr : K → Int} (htr : IsTrunc tr) (x e : K) :
+theorem trunc_direction_towardInf (s : Style) {tr : K → Int} (htr : IsTrunc tr) (x e : K) (h0 : 0 ≤ e) :
     let r := trunc s false .towardInf tr x e
     |x| ≤ |((r : Int) : K)| ∨ eqS s ((r : Int) : K) x e = true := by
   intro r
   have hr : r = _ := trunc_towardInf_eq s false tr x e
   by_cases hx : 0 < x
   · simp only [hx, if_true] at hr
-    rcases (trunc_direction_upward s htr x e).1 with h | h
+    rcases (trunc_direction_upward s htr x e h0).1 with h | h
     · left; rw [hr, abs_of_pos hx]; exact le_trans h (le_abs_self _)
     · right; rw [hr]; exact h
   · simp only [hx, if_false] at hr
@@ -351,43 +380,47 @@ theorem trunc_direction_towardZero (s : Style) {tr : K → Int} (htr : IsTrunc t
       have hr0 : (0 : K) ≤ ((trunc s false .downward tr x e : Int) : K) := by
         have hlK : (0 : K) ≤ (l : K) := by exact_mod_cast hl0
         rw [hd]; split
-        · push_cast; linarith
         · exact hlK
+        · split
+          · push_cast; linarith
+          · exact hlK
       rw [abs_of_nonneg hr0]; exact h
     · right; rw [hr]; exact h
   · simp only [hx, if_false] at hr
     have hx' : x ≤ 0 := not_lt.mp hx
-    have hup := trunc_upward_spec s htr x e l hl hu
-    rcases (trunc_direction_upward s htr x e).1 with h | h
+    have hup := trunc_upward_spec s htr x e l h0 hl hu
+    rcases (trunc_direction_upward s htr x e h0).1 with h | h
     · -- x ≤ r; either r ≤ 0, or r = l+1 = 1 and x = 0
       by_cases hr0 : ((trunc s false .upward tr x e : Int) : K) ≤ 0
       · left; rw [hr, abs_of_nonpos hr0, abs_of_nonpos hx']; linarith
       · right; rw [hr]
-        -- r > 0 ≥ x ≥ l  so r = l+1 and l = 0 = x
         have hrpos : 0 < ((trunc s false .upward tr x e : Int) : K) := not_le.mp hr0
         have hll : (l : K) ≤ 0 := le_trans hl hx'
-        by_cases h1 : eqS s ((l : K) + 1) x e = true
-        · rw [hup]; simp only [h1, if_true]; push_cast; exact h1
-        · simp only [h1, Bool.false_eq_true, if_false] at hup
-          by_cases h2 : eqS s (l : K) x e = true
-          · rw [hup]; simp only [h2, if_true]
-          · simp only [h2, Bool.false_eq_true, if_false] at hup
-            rw [hup] at hrpos; push_cast at hrpos
-            -- l + 1 > 0 and l ≤ 0 → l = 0 → x = 0 → eqS l x by reflexivity: contradiction
-            have hl1 : (0 : Int) < l + 1 := by exact_mod_cast hrpos
-            have hl2 : l ≤ 0 := by exact_mod_cast hll
-            have hl3 : l = 0 := by omega
-            have hx0 : x = 0 := by rw [hl3] at hl; push_cast at hl; exact le_antisymm hx' hl
-            exfalso; apply h2; rw [hl3, hx0]; push_cast; exact eqS_refl s 0 e h0
+        by_cases hi : (l : K) = x
+        · -- integer argument: r = l ≤ 0, contradiction
+          rw [hup, if_pos hi] at hrpos; exact absurd hrpos (not_lt.mpr hll)
+        · simp only [hi, if_false] at hup
+          by_cases h1 : eqS s ((l : K) + 1) x e = true
+          · rw [hup]; simp only [h1, if_true]; push_cast; exact h1
+          · simp only [h1, Bool.false_eq_true, if_false] at hup
+            by_cases h2 : eqS s (l : K) x e = true
+            · rw [hup]; simp only [h2, if_true]
+            · simp only [h2, Bool.false_eq_true, if_false] at hup
+              rw [hup] at hrpos; push_cast at hrpos
+              have hl1 : (0 : Int) < l + 1 := by exact_mod_cast hrpos
+              have hl2 : l ≤ 0 := by exact_mod_cast hll
+              have hl3 : l = 0 := by omega
+              have hx0 : x = 0 := by rw [hl3] at hl; push_cast at hl; exact le_antisymm hx' hl
+              exfalso; apply hi; rw [hl3, hx0]; push_cast; rfl
     · right; rw [hr]; exact h
 
-/-- an argument equal (within epsilon) to the integer above it is truncated to that integer in every style -/
-theorem trunc_snap_up (s : Style) (rs : RStyle) {tr : K → Int} (htr : IsTrunc tr) (x e : K) (l : Int)
-    (hl : (l : K) ≤ x) (hu : x < (l : K) + 1) (h : eqS s ((l : K) + 1) x e = true) :
+/-- a non-integer argument equal (within epsilon) to the integer above it is truncated to that integer in every style -/
+theorem trunc_snap_up (s : Style) (rs : RStyle) {tr : K → Int} (htr : IsTrunc tr) (x e : K) (l : Int) (h0 : 0 ≤ e)
+    (hl : (l : K) < x) (hu : x < (l : K) + 1) (h : eqS s ((l : K) + 1) x e = true) :
     trunc s false rs tr x e = l + 1 := by
-  have hd := trunc_downward_spec s htr x e l hl hu
-  have hup := trunc_upward_spec s htr x e l hl hu
-  simp only [h, if_true] at hd hup
+  have hd := trunc_downward_spec s htr x e l (le_of_lt hl) hu
+  have hup := trunc_upward_spec s htr x e l h0 (le_of_lt hl) hu
+  simp only [ne_of_lt hl, h, if_true, if_false] at hd hup
   cases rs
   · rw [trunc_towardZero_eq]; split <;> assumption
   · rw [trunc_towardInf_eq]; split <;> assumption
@@ -411,13 +444,13 @@ theorem trunc_unsigned_eq_signed (s : Style) (rs : RStyle) (tr : K → Int) (x e
 
 /-- every rounding style: the truncated value is the floor of the argument or the integer above it (distance at
     most 1; it is the integer above only in the cases listed in `trunc_downward_spec` / `trunc_upward_spec`) -/
-theorem trunc_within (s : Style) (rs : RStyle) {tr : K → Int} (htr : IsTrunc tr) (x e : K) :
+theorem trunc_within (s : Style) (rs : RStyle) {tr : K → Int} (htr : IsTrunc tr) (x e : K) (h0 : 0 ≤ e) :
     let r := trunc s false rs tr x e
     (r = floorOf tr x ∨ r = floorOf tr x + 1) ∧ x - 1 < ((r : Int) : K) ∧ ((r : Int) : K) ≤ x + 1 := by
   intro r
   obtain ⟨hl, hu⟩ := floorOf_spec htr x
   have hd := trunc_downward_spec s htr x e (floorOf tr x) hl hu
-  have hup := trunc_upward_spec s htr x e (floorOf tr x) hl hu
+  have hup := trunc_upward_spec s htr x e (floorOf tr x) h0 hl hu
   have hcases : r = trunc s false .downward tr x e ∨ r = trunc s false .upward tr x e := by
     show trunc s false rs tr x e = _ ∨ trunc s false rs tr x e = _
     cases rs
@@ -427,10 +460,14 @@ theorem trunc_within (s : Style) (rs : RStyle) {tr : K → Int} (htr : IsTrunc t
     · exact Or.inr rfl
   have hr : r = floorOf tr x ∨ r = floorOf tr x + 1 := by
     rcases hcases with h | h <;> rw [h]
-    · rw [hd]; split <;> simp
-    · rw [hup]; split
+    · rw [hd]; split
       · simp
       · split <;> simp
+    · rw [hup]; split
+      · simp
+      · split
+        · simp
+        · split <;> simp
   refine ⟨hr, ?_, ?_⟩
   · rcases hr with h | h <;> rw [h] <;> push_cast <;> linarith
   · rcases hr with h | h <;> rw [h] <;> push_cast <;> linarith
@@ -439,18 +476,25 @@ example : trunc .absolute true .downward trQ (3/2) 2 = 0 ∧ trunc .absolute fal
   constructor
   · exact trunc_unsigned_zero .absolute .downward trQ (3/2) 2 (by rw [eq_def]; norm_num [tol])
   · have := trunc_downward_spec .absolute trQ_isTrunc (3/2) 2 1 (by norm_num) (by norm_num)
-    rw [this, if_pos (by rw [eq_def]; norm_num [tol])]; norm_num
+    rw [this, if_neg (by norm_num), if_pos (by rw [eq_def]; norm_num [tol])]; norm_num
+
+-- integers stay where they are even when the next integer is "equal" to them: 2·10^6 with the default epsilon of
+-- float, 2^-20 (relativeWeak: 1 ≤ 2^-20 · 2000001)
+example : eqS .relativeWeak (2000001 : ℚ) 2000000 (1 / 2 ^ 20) = true ∧
+    trunc .relativeWeak false .towardZero trQ ((2000000 : Int) : ℚ) (1 / 2 ^ 20) = 2000000 :=
+  ⟨by rw [eq_def]; norm_num [tol, abs_of_pos], trunc_int .relativeWeak .towardZero trQ_isTrunc 2000000 _ (by norm_num)⟩
 
 -- -5/2 with epsilon 0: downward -3, upward -2, towardZero -2, towardInf -3
 example : trunc .relativeWeak false .downward trQ (-5/2) 0 = -3 ∧ trunc .relativeWeak false .upward trQ (-5/2) 0 = -2 ∧
     trunc .relativeWeak false .towardZero trQ (-5/2) 0 = -2 ∧ trunc .relativeWeak false .towardInf trQ (-5/2) 0 = -3 := by
   have hd := trunc_downward_spec .relativeWeak trQ_isTrunc (-5/2) 0 (-3) (by norm_num) (by norm_num)
-  have hu := trunc_upward_spec .relativeWeak trQ_isTrunc (-5/2) 0 (-3) (by norm_num) (by norm_num)
+  have hu := trunc_upward_spec .relativeWeak trQ_isTrunc (-5/2) 0 (-3) (le_refl _) (by norm_num) (by norm_num)
+  have hni : ¬ ((((-3 : Int)) : ℚ) = -5/2) := by norm_num
   have e1 : eqS .relativeWeak ((((-3 : Int)) : ℚ) + 1) (-5/2) 0 = false := by
     rw [Bool.eq_false_iff, Ne, eq_def]; norm_num [tol]
   have e2 : eqS .relativeWeak (((-3 : Int)) : ℚ) (-5/2) 0 = false := by
     rw [Bool.eq_false_iff, Ne, eq_def]; norm_num [tol]
-  simp only [e1, e2, Bool.false_eq_true, if_false] at hd hu
+  simp only [hni, e1, e2, Bool.false_eq_true, if_false] at hd hu
   refine ⟨hd, by rw [hu]; norm_num, ?_, ?_⟩
   · rw [trunc_towardZero_eq, if_neg (by norm_num), hu]; norm_num
   · rw [trunc_towardInf_eq, if_neg (by norm_num), hd]
@@ -517,11 +561,13 @@ theorem rat_round_tie (s : Style) (rs : RStyle) (x e : ℚ) (l : Int)
     (hl : (l : ℚ) < x) (hu : x < (l : ℚ) + 1) (hne : eqRat s ((trRat x : Int) : ℚ) x e = false)
     (ht : eqRat s (x - (l : ℚ)) ((l : ℚ) + 1 - x) e = true) :
     roundRat s rs x e = tieChoice rs x l := round_tie s rs trRat_isTrunc x e l hl hu hne ht
-theorem rat_trunc_spec (s : Style) (x e : ℚ) (l : Int) (hl : (l : ℚ) ≤ x) (hu : x < (l : ℚ) + 1) :
-    truncRat s false .downward x e = (if eqRat s ((l : ℚ) + 1) x e then l + 1 else l) ∧
+theorem rat_trunc_spec (s : Style) (x e : ℚ) (l : Int) (h0 : 0 ≤ e) (hl : (l : ℚ) ≤ x) (hu : x < (l : ℚ) + 1) :
+    truncRat s false .downward x e = (if (l : ℚ) = x then l else if eqRat s ((l : ℚ) + 1) x e then l + 1 else l) ∧
     truncRat s false .upward x e =
-      (if eqRat s ((l : ℚ) + 1) x e then l + 1 else if eqRat s (l : ℚ) x e then l else l + 1) :=
-  ⟨trunc_downward_spec s trRat_isTrunc x e l hl hu, trunc_upward_spec s trRat_isTrunc x e l hl hu⟩
+      (if (l : ℚ) = x then l else if eqRat s ((l : ℚ) + 1) x e then l + 1 else if eqRat s (l : ℚ) x e then l else l + 1) :=
+  ⟨trunc_downward_spec s trRat_isTrunc x e l hl hu, trunc_upward_spec s trRat_isTrunc x e l h0 hl hu⟩
+theorem rat_trunc_int (s : Style) (rs : RStyle) (n : Int) (e : ℚ) (h0 : 0 ≤ e) : truncRat s false rs (n : ℚ) e = n :=
+  trunc_int s rs trRat_isTrunc n e h0
 theorem rat_trunc_unsigned (s : Style) (rs : RStyle) (x e : ℚ) :
     (eqRat s x 0 e = true → truncRat s true rs x e = 0) ∧
     (eqRat s x 0 e = false → truncRat s true rs x e = truncRat s false rs x e) :=
